@@ -1,11 +1,1211 @@
-// In-crate verification harness (stub; see /verif/docs/SLICE_GUIDE.md).
+// In-crate verification harness for the conductor's executor (property C10).
+//
+// Child module `executor::verif` of crates/astria-conductor/src/executor/mod.rs (feature
+// `verif-executor`, cfg(test)), so it reaches the private `Initialized`, `execute_soft`,
+// `execute_firm`, `run_event_loop`, `create_block_channels`, `create_initial_node_state` and the
+// private fields (`state`, `blocks_pending_finalization`).
+//
+// The REAL executor code is driven one delivery at a time (so the `select!` loop cannot reorder
+// anything), or through the real `run_event_loop` over pre-filled, closed channels (op `loop`).
+// The rollup is an in-process tonic server implementing the execution API as a contract-
+// enforcing state machine (`Fake`, the same machine as `Astria.Conductor.Rollup` in the Lean
+// model); it records every ExecuteBlock / UpdateCommitmentState / GetExecutedBlockMetadata
+// request together with its answer.  One trace line per op:
+//
+//   executor reset exec <soft|firm|both> <S> <R> <firm0> <soft0> <cel0> <lookahead> => ok | - | <state>
+//   executor soft <h>                        => <ok|drop|err:kind> | <rpcs> | <state>
+//   executor firm <h> <celestia_h>           => …
+//   executor loop <h/c,h/c…|-> <h,h,…|->     => <ok|err:kind> | <rpcs> | <state> | left=<f>,<s>
+//   executor reset cache <next>              => <ok|err:zero> | <cache>
+//   executor cins <h> <tag> / cpop / cdrop <h> => <result> | <cache>
+//
+//   blk   = <number>:<hash id>:<parent hash id>:<sequencer height encoded in sequencer_block_hash>
+//   rpc   = X,<seq height>,<parent id>,<blk|rej:why> | U,<firm blk>,<soft blk>,<cel>,<ok|rej:why> | G,<n>,<blk|rej:why>
+//   state = firm=<blk> soft=<blk> cel=<n> nf=<next firm seq height> ns=<next soft> pend=<k>/<blk>,…
 #![allow(clippy::pedantic, clippy::all, dead_code, unused_imports)]
 
 #[path = "/verif/harness/common.rs"]
 mod common;
 
+use std::{
+    collections::HashMap,
+    sync::{
+        Arc,
+        Mutex,
+    },
+    time::Duration,
+};
+
+use astria_core::{
+    generated::astria::execution::v2 as raw,
+    generated::astria::execution::v2::execution_service_server::{
+        ExecutionService,
+        ExecutionServiceServer,
+    },
+    primitive::v1::RollupId,
+    sequencerblock::v1::{
+        block::{
+            self,
+            FilteredSequencerBlock,
+            SequencerBlockHeader,
+            SequencerBlockHeaderParts,
+        },
+        SequencerBlock,
+    },
+    Protobuf as _,
+};
+use common::{
+    Rng,
+    Trace,
+};
+use sequencer_client::tendermint::block::Height as SequencerHeight;
+use tokio_util::{
+    sync::CancellationToken,
+    task::JoinMap,
+};
+
+use super::{
+    state::StateSender,
+    Channels,
+    Initialized,
+};
+use crate::{
+    block_cache::{
+        BlockCache,
+        Error as CacheError,
+        GetSequencerHeight,
+    },
+    celestia::ReconstructedBlock,
+    config::CommitLevel,
+    metrics::Metrics,
+};
+
+const ROLLUP_ID: RollupId = RollupId::new([42; 32]);
+const SEQ_CHAIN: &str = "verif-seq";
+
+// ---------------------------------------------------------------------------------------------
+// sequencer block hashes encode the sequencer height, so that the rollup (which never sees a
+// height) can tell which height an ExecuteBlock request was made for
+// ---------------------------------------------------------------------------------------------
+
+fn seq_hash(h: u64) -> block::Hash {
+    let mut b = [0xC1u8; 32];
+    b[..8].copy_from_slice(&h.to_be_bytes());
+    block::Hash::new(b)
+}
+
+/// inverse of `seq_hash(h).to_string()` (hex); anything else maps to a value no height has
+fn seq_of_hash(s: &str) -> u64 {
+    if s.len() != 64 || !s[16..].bytes().all(|c| c == b'c' || c == b'1') {
+        return u64::MAX;
+    }
+    u64::from_str_radix(&s[..16], 16).unwrap_or(u64::MAX)
+}
+
+fn id_of_hash(s: &str) -> u64 {
+    s.strip_prefix('h').and_then(|x| x.parse().ok()).unwrap_or(u64::MAX)
+}
+
+// ---------------------------------------------------------------------------------------------
+// the contract-enforcing rollup
+// ---------------------------------------------------------------------------------------------
+
+#[derive(Clone, Debug, PartialEq, Eq)]
+struct Blk {
+    number: u64,
+    id: u64,
+    parent: u64,
+    seq: u64,
+}
+
+impl Blk {
+    fn fmt(&self) -> String {
+        format!("{}:{}:{}:{}", self.number, self.id, self.parent, self.seq)
+    }
+
+    fn to_raw(&self) -> raw::ExecutedBlockMetadata {
+        raw::ExecutedBlockMetadata {
+            number: self.number,
+            hash: format!("h{}", self.id),
+            parent_hash: format!("h{}", self.parent),
+            timestamp: Some(pbjson_types::Timestamp {
+                seconds: 1,
+                nanos: 0,
+            }),
+            sequencer_block_hash: seq_hash(self.seq).to_string(),
+        }
+    }
+
+    fn from_raw(m: &raw::ExecutedBlockMetadata) -> Blk {
+        Blk {
+            number: m.number,
+            id: id_of_hash(&m.hash),
+            parent: id_of_hash(&m.parent_hash),
+            seq: seq_of_hash(&m.sequencer_block_hash),
+        }
+    }
+
+    fn from_meta(m: &astria_core::execution::v2::ExecutedBlockMetadata) -> Blk {
+        Blk {
+            number: m.number(),
+            id: id_of_hash(m.hash()),
+            parent: id_of_hash(m.parent_hash()),
+            seq: seq_of_hash(m.sequencer_block_hash()),
+        }
+    }
+}
+
+#[derive(Clone, Debug)]
+struct Cfg {
+    mode: CommitLevel,
+    seq_start: u64,
+    rollup_start: u64,
+    firm0: u64,
+    soft0: u64,
+    cel0: u64,
+    lookahead: u64,
+}
+
+struct Fake {
+    cfg: Cfg,
+    session: String,
+    blocks: Vec<Blk>, // oldest first
+    firm: Blk,
+    soft: Blk,
+    cel: u64,
+    next_id: u64,
+    log: Vec<String>,
+}
+
+impl Fake {
+    fn new(cfg: Cfg, session_no: u64) -> Fake {
+        // blocks firm0 ..= soft0; block n has hash id n-firm0+1, parent id n-firm0, and was
+        // executed from sequencer height S + n - R
+        let span = cfg.soft0.saturating_sub(cfg.firm0);
+        let blocks: Vec<Blk> = (0..=span)
+            .map(|k| Blk {
+                number: cfg.firm0 + k,
+                id: k + 1,
+                parent: k,
+                seq: (cfg.seq_start + cfg.firm0 + k + 1)
+                    .saturating_sub(cfg.rollup_start)
+                    .saturating_sub(1),
+            })
+            .collect();
+        Fake {
+            session: format!("session-{session_no}"),
+            firm: blocks[0].clone(),
+            soft: blocks[blocks.len() - 1].clone(),
+            cel: cfg.cel0,
+            next_id: span + 2,
+            blocks,
+            cfg,
+            log: vec![],
+        }
+    }
+
+    fn commitment(&self) -> raw::CommitmentState {
+        raw::CommitmentState {
+            soft_executed_block_metadata: Some(self.soft.to_raw()),
+            firm_executed_block_metadata: Some(self.firm.to_raw()),
+            lowest_celestia_search_height: self.cel,
+        }
+    }
+
+    fn initial_commitment(&self) -> raw::CommitmentState {
+        // firm0 > soft0 is sent as such, so that the client's validation is exercised
+        let mut c = self.commitment();
+        if self.cfg.firm0 > self.cfg.soft0 {
+            let mut soft = self.soft.to_raw();
+            soft.number = self.cfg.soft0;
+            c.soft_executed_block_metadata = Some(soft);
+        }
+        c
+    }
+
+    fn execute(&mut self, session: &str, parent: u64, seq: u64) -> Result<Blk, &'static str> {
+        let res = if session != self.session {
+            Err("bad-session")
+        } else if parent != self.soft.id {
+            Err("not-head")
+        } else {
+            let b = Blk {
+                number: self.soft.number + 1,
+                id: self.next_id,
+                parent,
+                seq,
+            };
+            self.next_id += 1;
+            self.blocks.push(b.clone());
+            Ok(b)
+        };
+        self.log.push(format!(
+            "X,{seq},{parent},{}",
+            match &res {
+                Ok(b) => b.fmt(),
+                Err(e) => format!("rej:{e}"),
+            }
+        ));
+        res
+    }
+
+    fn update(&mut self, session: &str, f: Blk, s: Blk, cel: u64) -> Result<(), &'static str> {
+        let res = if session != self.session {
+            Err("bad-session")
+        } else if !(self.blocks.contains(&f) && self.blocks.contains(&s)) {
+            Err("unknown-block")
+        } else if f.number > s.number {
+            Err("firm-exceeds-soft")
+        } else if f.number < self.firm.number || s.number < self.soft.number {
+            Err("decrease")
+        } else {
+            self.firm = f.clone();
+            self.soft = s.clone();
+            self.cel = cel;
+            Ok(())
+        };
+        self.log.push(format!(
+            "U,{},{},{cel},{}",
+            f.fmt(),
+            s.fmt(),
+            match &res {
+                Ok(()) => "ok".to_string(),
+                Err(e) => format!("rej:{e}"),
+            }
+        ));
+        res
+    }
+
+    fn get(&mut self, n: u64) -> Result<Blk, &'static str> {
+        let res = if n > self.soft.number {
+            Err("no-such-block")
+        } else {
+            // newest block with that number
+            self.blocks.iter().rev().find(|b| b.number == n).cloned().ok_or("no-such-block")
+        };
+        self.log.push(format!(
+            "G,{n},{}",
+            match &res {
+                Ok(b) => b.fmt(),
+                Err(e) => format!("rej:{e}"),
+            }
+        ));
+        res
+    }
+}
+
+struct FakeService(Arc<Mutex<Fake>>);
+
+// Only non-retryable status codes (see executor/client.rs::should_retry), so that a rejected
+// request surfaces as an error of the delivery instead of an endless retry loop.
+fn reject(why: &'static str) -> tonic::Status {
+    tonic::Status::failed_precondition(why)
+}
+
+#[tonic::async_trait]
+impl ExecutionService for FakeService {
+    async fn get_executed_block_metadata(
+        self: Arc<Self>,
+        request: tonic::Request<raw::GetExecutedBlockMetadataRequest>,
+    ) -> tonic::Result<tonic::Response<raw::ExecutedBlockMetadata>> {
+        let req = request.into_inner();
+        let n = match req.identifier.and_then(|i| i.identifier) {
+            Some(raw::executed_block_identifier::Identifier::Number(n)) => n,
+            _ => return Err(reject("bad-identifier")),
+        };
+        let mut f = self.0.lock().unwrap();
+        f.get(n).map(|b| tonic::Response::new(b.to_raw())).map_err(reject)
+    }
+
+    async fn create_execution_session(
+        self: Arc<Self>,
+        _request: tonic::Request<raw::CreateExecutionSessionRequest>,
+    ) -> tonic::Result<tonic::Response<raw::ExecutionSession>> {
+        let f = self.0.lock().unwrap();
+        Ok(tonic::Response::new(raw::ExecutionSession {
+            session_id: f.session.clone(),
+            execution_session_parameters: Some(raw::ExecutionSessionParameters {
+                rollup_id: Some(ROLLUP_ID.into_raw()),
+                rollup_start_block_number: f.cfg.rollup_start,
+                rollup_end_block_number: 0,
+                sequencer_chain_id: SEQ_CHAIN.to_string(),
+                sequencer_start_block_height: f.cfg.seq_start,
+                celestia_chain_id: "verif-celestia".to_string(),
+                celestia_search_height_max_look_ahead: f.cfg.lookahead,
+            }),
+            commitment_state: Some(f.initial_commitment()),
+        }))
+    }
+
+    async fn execute_block(
+        self: Arc<Self>,
+        request: tonic::Request<raw::ExecuteBlockRequest>,
+    ) -> tonic::Result<tonic::Response<raw::ExecuteBlockResponse>> {
+        let req = request.into_inner();
+        let mut f = self.0.lock().unwrap();
+        let parent = id_of_hash(&req.parent_hash);
+        let seq = seq_of_hash(&req.sequencer_block_hash);
+        f.execute(&req.session_id, parent, seq)
+            .map(|b| {
+                tonic::Response::new(raw::ExecuteBlockResponse {
+                    executed_block_metadata: Some(b.to_raw()),
+                })
+            })
+            .map_err(reject)
+    }
+
+    async fn update_commitment_state(
+        self: Arc<Self>,
+        request: tonic::Request<raw::UpdateCommitmentStateRequest>,
+    ) -> tonic::Result<tonic::Response<raw::CommitmentState>> {
+        let req = request.into_inner();
+        let mut f = self.0.lock().unwrap();
+        let Some(c) = req.commitment_state else {
+            return Err(reject("no-commitment"));
+        };
+        let (Some(firm), Some(soft)) = (
+            c.firm_executed_block_metadata.as_ref(),
+            c.soft_executed_block_metadata.as_ref(),
+        ) else {
+            return Err(reject("no-commitment"));
+        };
+        f.update(
+            &req.session_id,
+            Blk::from_raw(firm),
+            Blk::from_raw(soft),
+            c.lowest_celestia_search_height,
+        )
+        .map_err(reject)?;
+        Ok(tonic::Response::new(f.commitment()))
+    }
+}
+
+// ---------------------------------------------------------------------------------------------
+// blocks handed to the executor
+// ---------------------------------------------------------------------------------------------
+
+struct BlockFactory {
+    template: SequencerBlock,
+}
+
+impl BlockFactory {
+    fn new() -> Self {
+        let template = astria_core::protocol::test_utils::ConfigureSequencerBlock {
+            block_hash: Some(seq_hash(1)),
+            chain_id: Some(SEQ_CHAIN.to_string()),
+            height: 1,
+            sequence_data: vec![(ROLLUP_ID, b"verif".to_vec())],
+            unix_timestamp: (1i64, 1u32).into(),
+            ..Default::default()
+        }
+        .make();
+        Self {
+            template,
+        }
+    }
+
+    /// the template block with its header height and block hash replaced
+    fn sequencer_block(&self, h: u64) -> SequencerBlock {
+        let mut parts = self.template.clone().into_parts();
+        let hp = parts.header.into_parts();
+        parts.header = SequencerBlockHeader::unchecked_from_parts(SequencerBlockHeaderParts {
+            height: SequencerHeight::try_from(h).expect("height fits tendermint's Height"),
+            ..hp
+        });
+        parts.block_hash = seq_hash(h);
+        SequencerBlock::unchecked_from_parts(parts)
+    }
+
+    fn soft(&self, h: u64) -> FilteredSequencerBlock {
+        self.sequencer_block(h).into_filtered_block([ROLLUP_ID])
+    }
+
+    fn firm(&self, h: u64, celestia_height: u64) -> Box<ReconstructedBlock> {
+        let parts = self.sequencer_block(h).into_filtered_block([ROLLUP_ID]).into_parts();
+        let transactions = parts
+            .rollup_transactions
+            .get(&ROLLUP_ID)
+            .map(|t| t.transactions().to_vec())
+            .unwrap_or_default();
+        Box::new(ReconstructedBlock {
+            celestia_height,
+            block_hash: parts.block_hash,
+            header: parts.header,
+            transactions,
+            extended_commit_info: None,
+        })
+    }
+}
+
+// ---------------------------------------------------------------------------------------------
+// sessions
+// ---------------------------------------------------------------------------------------------
+
+struct Env {
+    rt: tokio::runtime::Runtime,
+    fake: Arc<Mutex<Fake>>,
+    addr: std::net::SocketAddr,
+    metrics: &'static Metrics,
+    blocks: BlockFactory,
+    sessions: u64,
+}
+
+struct ExecSession {
+    init: Initialized,
+    cfg: Cfg,
+    firm_tx: tokio::sync::mpsc::Sender<Box<ReconstructedBlock>>,
+    soft_tx: tokio::sync::mpsc::Sender<FilteredSequencerBlock>,
+}
+
+#[derive(Debug)]
+struct CBlock {
+    height: u64,
+    tag: u64,
+}
+
+impl GetSequencerHeight for CBlock {
+    fn get_height(&self) -> SequencerHeight {
+        SequencerHeight::try_from(self.height).unwrap()
+    }
+}
+
+enum Session {
+    None,
+    Exec(ExecSession),
+    Cache(BlockCache<CBlock>),
+    Dead,
+}
+
+fn mode_name(m: CommitLevel) -> &'static str {
+    match m {
+        CommitLevel::SoftOnly => "soft",
+        CommitLevel::FirmOnly => "firm",
+        CommitLevel::SoftAndFirm => "both",
+    }
+}
+
+fn parse_mode(s: &str) -> CommitLevel {
+    match s {
+        "soft" => CommitLevel::SoftOnly,
+        "firm" => CommitLevel::FirmOnly,
+        "both" => CommitLevel::SoftAndFirm,
+        _ => panic!("bad mode {s}"),
+    }
+}
+
+fn make_config(url: String, level: CommitLevel) -> crate::Config {
+    crate::Config {
+        celestia_block_time_ms: 0,
+        celestia_node_http_url: String::new(),
+        no_celestia_auth: true,
+        celestia_bearer_token: String::new(),
+        sequencer_grpc_url: String::new(),
+        sequencer_cometbft_url: String::new(),
+        sequencer_block_time_ms: 0,
+        sequencer_requests_per_second: 1,
+        execution_rpc_url: url,
+        log: String::new(),
+        execution_commit_level: level,
+        force_stdout: false,
+        no_otel: true,
+        no_metrics: true,
+        metrics_http_listener_addr: String::new(),
+    }
+}
+
+/// the executor's error kinds, recognised by the messages of the real error chain
+fn err_kind(e: &astria_eyre::eyre::Report) -> &'static str {
+    let s = format!("{e:#}");
+    let has = |p: &str| s.contains(p);
+    if has("block received was out-of-order") {
+        "out-of-order"
+    } else if has("expected block at sequencer height") {
+        "height-mismatch"
+    } else if has("failed to map current block height to rollup number") {
+        "map"
+    } else if has("failed to execute block") {
+        "execute"
+    } else if has("execution API server violated contract") {
+        "contract"
+    } else if has("failed to get block at number") {
+        "get-block"
+    } else if has("failed constructing commitment state") {
+        "update-build"
+    } else if has("failed updating remote commitment state") {
+        "update-rpc"
+    } else if has("failed updating internal state tracking rollup state") {
+        "update-state"
+    } else {
+        "other"
+    }
+}
+
+fn dump_state(s: &ExecSession) -> String {
+    let (firm, soft, cel) = (
+        Blk::from_meta(&s.init.state.firm()),
+        Blk::from_meta(&s.init.state.soft()),
+        s.init.state.lowest_celestia_search_height(),
+    );
+    let r = s.init.state.rollup_start_block_number();
+    // the accessors panic on an unmappable commitment (soft-only sessions may hold one for firm)
+    let nf = if r <= firm.number + 1 {
+        s.init.state.next_expected_firm_sequencer_height().value().to_string()
+    } else {
+        "-".to_string()
+    };
+    let ns = if r <= soft.number + 1 {
+        s.init.state.next_expected_soft_sequencer_height().value().to_string()
+    } else {
+        "-".to_string()
+    };
+    let mut pend: Vec<(u64, Blk)> = s
+        .init
+        .blocks_pending_finalization
+        .iter()
+        .map(|(k, v)| (*k, Blk::from_meta(v)))
+        .collect();
+    pend.sort_by_key(|e| e.0);
+    let pend = if pend.is_empty() {
+        "-".to_string()
+    } else {
+        pend.iter().map(|(k, b)| format!("{k}/{}", b.fmt())).collect::<Vec<_>>().join(",")
+    };
+    format!("firm={} soft={} cel={cel} nf={nf} ns={ns} pend={pend}", firm.fmt(), soft.fmt())
+}
+
+fn take_log(env: &Env) -> String {
+    let mut f = env.fake.lock().unwrap();
+    let l = std::mem::take(&mut f.log);
+    if l.is_empty() {
+        "-".to_string()
+    } else {
+        l.join(";")
+    }
+}
+
+const OP_TIMEOUT: Duration = Duration::from_secs(20);
+
+fn new_exec_session(env: &mut Env, cfg: Cfg) -> Result<ExecSession, &'static str> {
+    env.sessions += 1;
+    *env.fake.lock().unwrap() = Fake::new(cfg.clone(), env.sessions);
+    let config = make_config(format!("http://{}", env.addr), cfg.mode);
+    let metrics = env.metrics;
+    env.rt.block_on(async {
+        let executor = super::Builder {
+            config,
+            shutdown: CancellationToken::new(),
+            metrics,
+        }
+        .build()
+        .map_err(|_| "err:build")?;
+        // the real initialisation: CreateExecutionSession + State::try_from_execution_session
+        let state: StateSender =
+            match tokio::time::timeout(OP_TIMEOUT, executor.create_initial_node_state()).await {
+                Ok(Ok(s)) => s,
+                Ok(Err(_)) => return Err("err:init"),
+                Err(_) => return Err("err:timeout"),
+            };
+        let Channels {
+            firm_sender,
+            firm_receiver,
+            soft_sender,
+            soft_receiver,
+        } = super::create_block_channels(cfg.mode, &state).map_err(|_| "err:channels")?;
+        let init = Initialized {
+            config: executor.config,
+            client: executor.client,
+            firm_blocks: firm_receiver,
+            soft_blocks: soft_receiver,
+            shutdown: executor.shutdown,
+            state,
+            blocks_pending_finalization: HashMap::new(),
+            metrics: executor.metrics,
+            reader_tasks: JoinMap::new(),
+            reader_cancellation_token: CancellationToken::new(),
+        };
+        Ok(ExecSession {
+            init,
+            cfg,
+            firm_tx: firm_sender,
+            soft_tx: soft_sender,
+        })
+    })
+}
+
+fn outcome(res: Result<Result<(), astria_eyre::eyre::Report>, tokio::time::error::Elapsed>, had_rpc_or_ok_is_drop: bool) -> String {
+    match res {
+        Ok(Ok(())) => {
+            if had_rpc_or_ok_is_drop {
+                "drop".to_string()
+            } else {
+                "ok".to_string()
+            }
+        }
+        Ok(Err(e)) => format!("err:{}", err_kind(&e)),
+        Err(_) => "err:timeout".to_string(),
+    }
+}
+
+fn parse_firm_list(s: &str) -> Vec<(u64, u64)> {
+    if s == "-" {
+        return vec![];
+    }
+    s.split(',')
+        .map(|e| {
+            let (h, c) = e.split_once('/').expect("h/c");
+            (h.parse().unwrap(), c.parse().unwrap())
+        })
+        .collect()
+}
+
+fn parse_soft_list(s: &str) -> Vec<u64> {
+    if s == "-" {
+        return vec![];
+    }
+    s.split(',').map(|e| e.parse().unwrap()).collect()
+}
+
+fn dump_cache(c: &BlockCache<CBlock>) -> String {
+    // the map itself is private to `block_cache`; its content is made observable by `cscan`
+    format!("next={}", c.next_height_to_pop())
+}
+
+fn exec(env: &mut Env, sess: &mut Session, op: &str) -> String {
+    let t: Vec<&str> = op.split(' ').collect();
+    match t[0] {
+        "reset" if t[1] == "exec" => {
+            let cfg = Cfg {
+                mode: parse_mode(t[2]),
+                seq_start: t[3].parse().unwrap(),
+                rollup_start: t[4].parse().unwrap(),
+                firm0: t[5].parse().unwrap(),
+                soft0: t[6].parse().unwrap(),
+                cel0: t[7].parse().unwrap(),
+                lookahead: t[8].parse().unwrap(),
+            };
+            match new_exec_session(env, cfg) {
+                Ok(s) => {
+                    let _ = take_log(env);
+                    let d = dump_state(&s);
+                    *sess = Session::Exec(s);
+                    format!("ok | - | {d}")
+                }
+                Err(e) => {
+                    *sess = Session::Dead;
+                    e.to_string()
+                }
+            }
+        }
+        "reset" if t[1] == "cache" => {
+            let n: u64 = t[2].parse().unwrap();
+            match BlockCache::<CBlock>::with_next_height(SequencerHeight::try_from(n).unwrap()) {
+                Ok(c) => {
+                    let d = dump_cache(&c);
+                    *sess = Session::Cache(c);
+                    format!("ok | {d}")
+                }
+                Err(CacheError::ZeroHeightsNotSupported) => {
+                    *sess = Session::Dead;
+                    "err:zero".to_string()
+                }
+                Err(_) => {
+                    *sess = Session::Dead;
+                    "err:other".to_string()
+                }
+            }
+        }
+        "soft" | "firm" | "loop" => {
+            let Session::Exec(s) = sess else {
+                return "err:no-session".to_string();
+            };
+            let res = match t[0] {
+                "soft" => {
+                    let h: u64 = t[1].parse().unwrap();
+                    let block = env.blocks.soft(h);
+                    let r = env.rt.block_on(async {
+                        tokio::time::timeout(OP_TIMEOUT, s.init.execute_soft(block)).await
+                    });
+                    let log = take_log(env);
+                    // `Ok(())` without any RPC is the silent drop of a stale block
+                    let o = outcome(r, log == "-");
+                    format!("{o} | {log}")
+                }
+                "firm" => {
+                    let h: u64 = t[1].parse().unwrap();
+                    let c: u64 = t[2].parse().unwrap();
+                    let block = env.blocks.firm(h, c);
+                    let r = env.rt.block_on(async {
+                        tokio::time::timeout(OP_TIMEOUT, s.init.execute_firm(block)).await
+                    });
+                    let log = take_log(env);
+                    let o = outcome(r, false);
+                    format!("{o} | {log}")
+                }
+                _ => {
+                    let firm = parse_firm_list(t[1]);
+                    let soft = parse_soft_list(t[2]);
+                    // blocks beyond the capacity chosen by the real `create_block_channels` are
+                    // not delivered (a reader would be waiting for room)
+                    for (h, c) in &firm {
+                        if s.firm_tx.try_send(env.blocks.firm(*h, *c)).is_err() {
+                            break;
+                        }
+                    }
+                    for h in &soft {
+                        if s.soft_tx.try_send(env.blocks.soft(*h)).is_err() {
+                            break;
+                        }
+                    }
+                    // closing the receivers lets the loop see `None` once the buffers are drained
+                    s.init.firm_blocks.close();
+                    s.init.soft_blocks.close();
+                    let r = env.rt.block_on(async {
+                        tokio::time::timeout(OP_TIMEOUT, s.init.run_event_loop()).await
+                    });
+                    let mut left_f = 0;
+                    while s.init.firm_blocks.try_recv().is_ok() {
+                        left_f += 1;
+                    }
+                    let mut left_s = 0;
+                    while s.init.soft_blocks.try_recv().is_ok() {
+                        left_s += 1;
+                    }
+                    // fresh channels for the rest of the session
+                    match super::create_block_channels(s.cfg.mode, &s.init.state) {
+                        Ok(ch) => {
+                            s.init.firm_blocks = ch.firm_receiver;
+                            s.init.soft_blocks = ch.soft_receiver;
+                            s.firm_tx = ch.firm_sender;
+                            s.soft_tx = ch.soft_sender;
+                        }
+                        Err(_) => return "err:channels".to_string(),
+                    }
+                    let log = take_log(env);
+                    let o = match r {
+                        Ok(Ok(Some(_))) => "ok".to_string(),
+                        Ok(Ok(None)) => "ok-none".to_string(),
+                        Ok(Err(e)) => format!("err:{}", err_kind(&e)),
+                        Err(_) => "err:timeout".to_string(),
+                    };
+                    format!("{o} | {log} | {} | left={left_f},{left_s}", dump_state(s))
+                }
+            };
+            if t[0] == "loop" {
+                res
+            } else {
+                format!("{res} | {}", dump_state(s))
+            }
+        }
+        "cins" | "cpop" | "cdrop" | "cscan" => {
+            let Session::Cache(c) = sess else {
+                return "err:no-session".to_string();
+            };
+            let r = match t[0] {
+                "cins" => {
+                    let height: u64 = t[1].parse().unwrap();
+                    let tag: u64 = t[2].parse().unwrap();
+                    match c.insert(CBlock {
+                        height,
+                        tag,
+                    }) {
+                        Ok(()) => "ok".to_string(),
+                        Err(CacheError::Old {
+                            ..
+                        }) => "err:old".to_string(),
+                        Err(CacheError::Occupied {
+                            ..
+                        }) => "err:occupied".to_string(),
+                        Err(_) => "err:other".to_string(),
+                    }
+                }
+                "cpop" => match c.pop() {
+                    Some(b) => format!("some:{}:{}", b.height, b.tag),
+                    None => "none".to_string(),
+                },
+                "cscan" => {
+                    // reveal the whole content: try to insert a probe (tag 0) at every height from
+                    // `next` to `hi` (occupied slots answer `Occupied`), then pop everything
+                    let hi: u64 = t[1].parse().unwrap();
+                    let lo = c.next_height_to_pop();
+                    let mut occ = vec![];
+                    let mut h = lo;
+                    while h <= hi {
+                        if let Err(CacheError::Occupied {
+                            ..
+                        }) = c.insert(CBlock {
+                            height: h,
+                            tag: 0,
+                        }) {
+                            occ.push(h.to_string());
+                        }
+                        h += 1;
+                    }
+                    let mut popped = vec![];
+                    while let Some(b) = c.pop() {
+                        popped.push(format!("{}:{}", b.height, b.tag));
+                    }
+                    format!(
+                        "occ={} popped={}",
+                        if occ.is_empty() { "-".to_string() } else { occ.join(",") },
+                        if popped.is_empty() { "-".to_string() } else { popped.join(",") }
+                    )
+                }
+                _ => {
+                    let h: u64 = t[1].parse().unwrap();
+                    c.drop_obsolete(SequencerHeight::try_from(h).unwrap());
+                    "ok".to_string()
+                }
+            };
+            format!("{r} | {}", dump_cache(c))
+        }
+        _ => panic!("unknown op {op}"),
+    }
+}
+
+// ---------------------------------------------------------------------------------------------
+// generator
+// ---------------------------------------------------------------------------------------------
+
+struct GenState {
+    mode: CommitLevel,
+    s: u64,
+    r: u64,
+    firm: u64, // rollup numbers as the generator believes them to be (only used to aim)
+    soft: u64,
+    lookahead: u64,
+}
+
+impl GenState {
+    fn next_soft(&self) -> u64 {
+        (self.s + self.soft + 1).saturating_sub(self.r).max(1)
+    }
+
+    fn next_firm(&self) -> u64 {
+        (self.s + self.firm + 1).saturating_sub(self.r).max(1)
+    }
+
+    fn apply_soft(&mut self, h: u64) {
+        if h == self.next_soft() {
+            self.soft += 1;
+        }
+    }
+
+    fn apply_firm(&mut self, h: u64) {
+        if h == self.next_firm() {
+            self.firm += 1;
+            if self.firm > self.soft {
+                self.soft = self.firm;
+            }
+        }
+    }
+}
+
+fn gen_session(rng: &mut Rng, ops: &mut Vec<String>, idx: u64, thorough: bool) {
+    let mode = match idx % 5 {
+        0 => CommitLevel::SoftOnly,
+        1 => CommitLevel::FirmOnly,
+        _ => CommitLevel::SoftAndFirm,
+    };
+    // (sequencer start height, rollup start number)
+    let (s, r) = match rng.below(8) {
+        0 => (1, 0),
+        1 => (1, 1),
+        2 => (10, 3),
+        3 => (1u64 << 32, 5),
+        4 => (rng.range(1, 50), rng.range(0, 50)),
+        5 => (rng.range(1, 1 << 40), rng.range(0, 1 << 20)),
+        6 => (2, 1 << 33),
+        _ => (rng.range(1, 1000), 1),
+    };
+    // initial commitment: fresh session (firm = soft = R-1, i.e. nothing executed yet), or a
+    // restart with some firm / soft blocks already on the rollup
+    let base = r.saturating_sub(1);
+    let mut firm0 = match rng.below(4) {
+        0 | 1 => base,
+        _ => base + rng.below(6),
+    };
+    let mut soft0 = match rng.below(3) {
+        0 => firm0,
+        _ => firm0 + rng.below(5),
+    };
+    if mode == CommitLevel::FirmOnly && !rng.chance(8) {
+        // a firm-only conductor on a rollup whose soft head is ahead of firm is rejected by the
+        // rollup at the first ExecuteBlock (kept as a rare case for the correspondence only)
+        soft0 = firm0;
+    }
+    let cel0 = rng.range(1, 100);
+    let mut lookahead = match rng.below(10) {
+        0..=2 => rng.range(1, 3),
+        3..=5 => rng.range(3, 8),
+        _ => rng.range(8, 100),
+    };
+    // sessions the conductor must refuse (or, for soft-only, accept although the firm number
+    // cannot be mapped to a sequencer height)
+    let mut refused = false;
+    if rng.chance(5) {
+        match rng.below(4) {
+            0 if r >= 2 => {
+                // rollup start number more than one above the firm number
+                firm0 = rng.below(r - 1);
+                soft0 = firm0 + rng.below(3);
+                refused = mode != CommitLevel::SoftOnly || r > soft0 + 1;
+            }
+            1 => {
+                // firm above soft
+                firm0 = soft0 + rng.range(1, 3);
+                refused = true;
+            }
+            2 if mode == CommitLevel::SoftAndFirm => {
+                lookahead = 0;
+                refused = true;
+            }
+            _ => {}
+        }
+    }
+    ops.push(format!(
+        "reset exec {} {s} {r} {firm0} {soft0} {cel0} {lookahead}",
+        mode_name(mode)
+    ));
+    if refused {
+        return;
+    }
+    let mut g = GenState {
+        mode,
+        s,
+        r,
+        firm: firm0,
+        soft: soft0,
+        lookahead,
+    };
+    let n = if thorough { rng.range(5, 40) } else { rng.range(3, 14) };
+    let mut cel = cel0;
+    let with_soft = mode != CommitLevel::FirmOnly;
+    let with_firm = mode != CommitLevel::SoftOnly;
+    for _ in 0..n {
+        let c = rng.below(100);
+        // occasionally run the real event loop over a batch
+        if c < 7 {
+            let nf = if with_firm { rng.below(5) } else { 0 };
+            let ns = if with_soft {
+                rng.below(8.min(if mode == CommitLevel::SoftAndFirm { lookahead } else { 8 }) + 1)
+            } else {
+                0
+            };
+            let mut fl = vec![];
+            let mut gf = g.next_firm();
+            for _ in 0..nf {
+                cel += rng.below(3);
+                let h = if rng.chance(85) { gf } else { gf + rng.below(3) };
+                if h == gf {
+                    gf += 1;
+                }
+                fl.push(format!("{h}/{cel}"));
+            }
+            let mut sl = vec![];
+            let mut gs = g.next_soft();
+            for _ in 0..ns {
+                let h = if rng.chance(80) { gs } else { (gs + rng.below(4)).saturating_sub(2).max(1) };
+                if h == gs {
+                    gs += 1;
+                }
+                sl.push(h.to_string());
+            }
+            // keep the generator's belief roughly right: firm first, then soft
+            for e in &fl {
+                let h: u64 = e.split('/').next().unwrap().parse().unwrap();
+                g.apply_firm(h);
+            }
+            for e in &sl {
+                g.apply_soft(e.parse().unwrap());
+            }
+            ops.push(format!(
+                "loop {} {}",
+                if fl.is_empty() { "-".to_string() } else { fl.join(",") },
+                if sl.is_empty() { "-".to_string() } else { sl.join(",") }
+            ));
+            continue;
+        }
+        // which reader delivers
+        let soft_turn = if !with_firm {
+            true
+        } else if !with_soft {
+            false
+        } else {
+            // soft usually leads; sometimes firm catches up or overtakes
+            let lead = g.soft - g.firm;
+            if lead == 0 { rng.chance(65) } else if lead > 4 { rng.chance(25) } else { rng.chance(50) }
+        };
+        if soft_turn {
+            let e = g.next_soft();
+            let h = match rng.below(100) {
+                0..=71 => e,                                   // in order
+                72..=79 => e.saturating_sub(1).max(1),         // duplicate of the last one
+                80..=85 => e.saturating_sub(rng.range(1, 6)).max(1), // stale
+                86..=91 => e + 1,                              // gap of one
+                92..=95 => e + rng.range(2, 40),               // far ahead
+                96..=97 => g.next_firm(),                      // the firm height
+                _ => rng.range(1, e + 3),
+            };
+            g.apply_soft(h);
+            ops.push(format!("soft {h}"));
+        } else {
+            let e = g.next_firm();
+            let h = match rng.below(100) {
+                0..=71 => e,
+                72..=79 => e.saturating_sub(1).max(1),
+                80..=84 => e.saturating_sub(rng.range(1, 6)).max(1),
+                85..=90 => e + 1,
+                91..=94 => e + rng.range(2, 40),
+                95..=97 => g.next_soft(),
+                _ => rng.range(1, e + 3),
+            };
+            cel += rng.below(3);
+            g.apply_firm(h);
+            ops.push(format!("firm {h} {cel}"));
+        }
+    }
+}
+
+fn gen_cache_session(rng: &mut Rng, ops: &mut Vec<String>, tag: &mut u64, thorough: bool) {
+    let start = match rng.below(6) {
+        0 => 0,
+        1 => 1,
+        2 => rng.range(1, 10),
+        _ => rng.range(1, 1 << 33),
+    };
+    ops.push(format!("reset cache {start}"));
+    if start == 0 {
+        return;
+    }
+    let mut next = start; // generator's belief
+    let mut hi = start;
+    let n = if thorough { rng.range(5, 60) } else { rng.range(3, 25) };
+    for _ in 0..n {
+        match rng.below(100) {
+            0..=54 => {
+                let h = match rng.below(12) {
+                    0..=4 => next,
+                    5..=6 => next + 1,
+                    7 => next + rng.range(2, 6),
+                    8 => next.saturating_sub(1),
+                    9 => next.saturating_sub(rng.range(1, 4)),
+                    _ => next + rng.below(4),
+                };
+                *tag += 1;
+                hi = hi.max(h);
+                ops.push(format!("cins {h} {tag}"));
+            }
+            55..=86 => {
+                ops.push("cpop".to_string());
+                // the belief may be wrong when the slot was empty; it only aims the generator
+                if rng.chance(55) {
+                    next += 1;
+                }
+            }
+            _ => {
+                let h = match rng.below(6) {
+                    0 => next,
+                    1 => next + 1,
+                    2 => next + rng.range(2, 5),
+                    3 => next.saturating_sub(1),
+                    4 => next.saturating_sub(rng.range(1, 4)),
+                    _ => rng.range(0, next + 3),
+                };
+                if h > next {
+                    next = h;
+                }
+                ops.push(format!("cdrop {h}"));
+            }
+        }
+    }
+    ops.push(format!("cscan {}", hi + 1));
+}
+
+fn gen_ops(rng: &mut Rng, thorough: bool) -> Vec<String> {
+    let mut ops = Vec::new();
+    let sessions = if thorough { 5000 } else { 400 };
+    for i in 0..sessions {
+        gen_session(rng, &mut ops, i, thorough);
+    }
+    let mut tag = 0;
+    let cache_sessions = if thorough { 3000 } else { 300 };
+    for _ in 0..cache_sessions {
+        gen_cache_session(rng, &mut ops, &mut tag, thorough);
+    }
+    ops
+}
+
 #[test]
 fn driver() {
-    let trace = common::Trace::from_env();
+    let mut trace = Trace::from_env();
+    let mut rng = Rng::from_env();
+    let thorough = common::is_thorough();
+
+    let rt = tokio::runtime::Builder::new_multi_thread()
+        .worker_threads(2)
+        .enable_all()
+        .build()
+        .unwrap();
+    let fake = Arc::new(Mutex::new(Fake::new(
+        Cfg {
+            mode: CommitLevel::SoftAndFirm,
+            seq_start: 1,
+            rollup_start: 1,
+            firm0: 0,
+            soft0: 0,
+            cel0: 1,
+            lookahead: 1,
+        },
+        0,
+    )));
+    let addr = rt.block_on(async {
+        let listener = tokio::net::TcpListener::bind("127.0.0.1:0").await.unwrap();
+        let addr = listener.local_addr().unwrap();
+        let svc = ExecutionServiceServer::new(FakeService(fake.clone()));
+        tokio::spawn(async move {
+            tonic::transport::Server::builder()
+                .add_service(svc)
+                .serve_with_incoming(tokio_stream::wrappers::TcpListenerStream::new(listener))
+                .await
+                .unwrap();
+        });
+        addr
+    });
+    let _guard = rt.enter();
+    let (metrics, _handle) = telemetry::metrics::ConfigBuilder::new()
+        .set_global_recorder(false)
+        .build::<Metrics>(&())
+        .unwrap();
+    let metrics: &'static Metrics = Box::leak(Box::new(metrics));
+    drop(_guard);
+    let mut env = Env {
+        rt,
+        fake,
+        addr,
+        metrics,
+        blocks: BlockFactory::new(),
+        sessions: 0,
+    };
+
+    let ops = match common::replay_lines() {
+        Some(lines) => lines
+            .into_iter()
+            .map(|l| l.strip_prefix("executor ").map(str::to_string).unwrap_or(l))
+            .collect(),
+        None => {
+            let mut ops: Vec<String> = common::corpus_lines()
+                .into_iter()
+                .map(|l| l.strip_prefix("executor ").map(str::to_string).unwrap_or(l))
+                .collect();
+            ops.extend(gen_ops(&mut rng, thorough));
+            ops
+        }
+    };
+
+    let mut sess = Session::None;
+    for op in &ops {
+        let res = exec(&mut env, &mut sess, op);
+        trace.line(&format!("executor {op} => {res}"));
+    }
     trace.finish();
 }
